@@ -166,13 +166,15 @@ def finishOpen (ro : Bool) (file : Bytes) (used : Bool) (r : ScanResult) : Opene
     pos := r.pos, index := r.index, ltid := r.ltid, maxOid := idxMaxKey r.index
     usedIndex := used, how := r.how }
 
-/-- `_restore_index` after `fsIndex.load`: `none` = ignore the index -/
+/-- `_restore_index` after `fsIndex.load`: `none` = ignore the index.  An exception inside the
+    sanity check (it read garbage where a foreign index points) means "insane" as well
+    (repaired code: `try: tid = self._sane(index, pos) except Exception: tid = 0`). -/
 def restoreIndex (file : Bytes) (idx : Option SavedIndex) : Except Err (Option (SavedIndex × Nat)) :=
   match idx with
   | none => .ok none
   | some s =>
     match checkSanity file s.index s.pos with
-    | .error e => .error e
+    | .error _ => .ok none
     | .ok none => .ok none
     | .ok (some ltid) => .ok (some (s, ltid))
 
